@@ -2,6 +2,7 @@ package keystore
 
 import (
 	"errors"
+	"strings"
 	"sync"
 
 	"crypto/rand"
@@ -1157,7 +1158,11 @@ func (km *KeystoreManager) ImportKeystoreWithMnemonic(dbTransaction db.DBTransac
 	km.mu.Lock()
 	defer km.mu.Unlock()
 
-	entropy, err := EntropyFromMnemonic(walletParams.Mnemonic)
+	// The sentence is user input. Entropy (what is stored and later exported) and seed (what the
+	// keys derive from) must come from the same, canonical single-spaced sentence.
+	mnemonic := strings.Join(strings.Fields(walletParams.Mnemonic), " ")
+
+	entropy, err := EntropyFromMnemonic(mnemonic)
 	if err != nil {
 		return nil, err
 	}
@@ -1170,7 +1175,7 @@ func (km *KeystoreManager) ImportKeystoreWithMnemonic(dbTransaction db.DBTransac
 		return nil, ErrKeystoreVersion
 	}
 
-	seed, err := NewSeedWithErrorChecking(walletParams.Mnemonic, genPass)
+	seed, err := NewSeedWithErrorChecking(mnemonic, genPass)
 	if err != nil {
 		return nil, err
 	}
